@@ -210,6 +210,17 @@ example : ceval (env1 ⟨.u16, 0x1234⟩) (.cast .u8 (.hole 0)) = some ⟨.u8, 0
 
 /-! ## Whole-program lowering: stated, not proved -/
 
+-- OPEN: jump_lowering — "a labelled `break.L` / `continue.L` that does not target the
+-- innermost loop is lowered to `goto label__L__break` / `goto label__L__continue`
+-- (writeStatementJump, writeStatementWhile: `label__L__continue:;` before the `while`,
+-- `label__L__break:;` after it; `while true { …; break }` without continue becomes
+-- `do { … } while (0)`) and this preserves the successor state of the small-step
+-- semantics".  Needs a goto-level C statement semantics, which this development does not
+-- have.  Covered by differential execution only (generated programs contain labelled and
+-- deep jumps, counted in the evidence as stmt:deep-break / stmt:deep-continue; the mutants
+-- "deep break jumps to the continue label" and "deep break emitted as plain break" are
+-- both caught).
+
 /-- Statement / struct-layout lowering as a whole is NOT proved: there is no C
 statement semantics in this development.  What stands in its place is the
 differential execution of harness/cmd/c04 (sampling).  This `_partial` records
